@@ -352,6 +352,7 @@ func init() {
 			}
 			b := ps.fresh("f64bits", "aux", 64)
 			ps.vars = ps.vars[:len(ps.vars)-1] // auxiliary: not a nondet input
+			ps.cache = nil
 			ps.sol.Send("(assert (= ((_ to_fp 11 53) " + b.name + ") " + smt(ps.subst(s.t)) + "))")
 			return sym{b}
 		}
